@@ -21,8 +21,7 @@ from simkit import ops
 from simkit.core import RunState, Sim, StopRun, enc, dec, small_values
 from simkit.world import World, SEAM, SimFault, SimBodyError, quiet
 
-MODE_OPS = ["add", "mul", "sub", "neg", "F.neg", "mul_scalar", "rsub_scalar", "square_plus", "matmul_T", "sum", "mean", "reshape",
-            "exp", "tanh", "relu", "sigmoid", "slice", "unbind", "concat", "stack", "clone", "unsqueeze", "flatten", "F.add", "mse_loss"]
+MODE_OPS = [n for n in ops.ALL_OPS if n not in ("batch_norm",)]
 
 
 class ModeSim(Sim):
